@@ -4,5 +4,6 @@
 //! crate-private code. Nothing here changes the behavior of the crate.
 #![allow(missing_docs, dead_code, unreachable_pub, clippy::all)]
 
+pub mod benchlab;
 pub mod pure;
 pub mod vclock;
